@@ -50,10 +50,9 @@ class _AddressList(Writeable):
         if self.headers:
             addresses: list[Address] = []
             for header in self.headers:
-                if isinstance(header, SingleAddressHeader):
-                    addresses.append(header.address)
-                else:
-                    addresses.extend(header.addresses)
+                # (also for a single-address header such as Sender: its
+                # ``address`` raises unless there is exactly one)
+                addresses.extend(header.addresses)
             if addresses:
                 return List([self._parse(address)
                              for address in addresses])
